@@ -63,7 +63,11 @@ def norm(data, root):
     """Replaces the scratch root by $W (the tool embeds absolute output paths in #line)."""
     if data is None:
         return None
-    return data.replace(root.encode(), b"$W")
+    data = data.replace(root.encode(), b"$W")
+    # the tool echoes its own command line (argv[0] included) into the code file: the build flavour is not part of the output
+    for kind in ("rel", "san"):
+        data = data.replace((build.build_dir(kind) + "/bin/").encode(), b"$B/")
+    return data
 
 
 def collect_outputs(job, root):
